@@ -78,6 +78,10 @@ void enc_dec_segments_init(EncDecSegments *segments_ptr, uint32_t segColCount, u
     segRowCount = (segRowCount < segments_ptr->segment_max_row_count)
         ? segRowCount
         : segments_ptr->segment_max_row_count;
+    // A picture (tile group) that is one superblock wide has no wavefront: each superblock row needs the whole row
+    // above, and the band arithmetic gives the lower segment rows no predecessor that would ever start them.
+    if (pic_width_sb == 1)
+        segRowCount = 1;
 
     segments_ptr->sb_row_count       = pic_height_sb;
     segments_ptr->sb_band_count      = BAND_TOTAL_COUNT(pic_height_sb, pic_width_sb);
